@@ -24,6 +24,7 @@ from ._schema_common import (
     FINGERPRINT_ALGORITHMS,
     RABIN_64,
     rabin_fingerprint,
+    inline_separately_parsed_types,
 )
 
 SYMBOL_REGEX = re.compile(r"[A-Za-z_][A-Za-z0-9_]*")
@@ -966,7 +967,13 @@ def to_parsing_canonical_form(schema: Schema) -> str:
 
     """
     fo = StringIO()
-    _to_parsing_canonical_form(parse_schema(schema), fo)
+    parsed_schema = parse_schema(schema)
+    if isinstance(parsed_schema, dict) and "__named_schemas" in parsed_schema:
+        # types that were parsed separately are written out at their first use
+        parsed_schema = inline_separately_parsed_types(
+            parsed_schema, parsed_schema["__named_schemas"]
+        )
+    _to_parsing_canonical_form(parsed_schema, fo)
     return fo.getvalue()
 
 
